@@ -111,6 +111,17 @@ def _camel(n):
     return ''.join(w.capitalize() for w in n.split('_')) + 'Fn'
 
 
+def _in_string(mask, raw, i):
+    """True when position i lies inside a string literal (the mask keeps the quotes and blanks the content)."""
+    j = i
+    while j >= 0 and mask[j] == ' ' and raw[j] != '"':
+        j -= 1
+    if j < 0 or raw[j] != '"' or mask[j] != '"':
+        return False
+    # an opening quote has an even number of quotes before it on the masked text
+    return mask[:j].count('"') % 2 == 0
+
+
 @extra
 def builtin_table(tier):
     """C15/C02/C06: runtime.rs::register_builtin_functions binds each of the 26 specified names to the struct of
@@ -123,7 +134,9 @@ def builtin_table(tier):
         return {'status': 'undecided', 'reason': str(e)}
     body = R.mask_source(item.body)
     raw = item.body
-    stmts = [s.strip() for s in raw.split(';') if s.strip() and not s.strip().startswith('//')]
+    # statements with comments removed (the mask blanks comments and string contents; the strings are read back from raw)
+    nocomment = ''.join(raw[i] if (body[i] != ' ' or raw[i] in ' \n\t' or _in_string(body, raw, i)) else ' ' for i in range(len(raw)))
+    stmts = [s.strip() for s in nocomment.split(';') if s.strip()]
     seen = {}
     fails = []
     for s in stmts:
